@@ -1506,6 +1506,36 @@ def fam_common(rng, tier, prefix, n_quick=30, n_thorough=800, hold=True, tail=No
         if tail:
             sc = (sc[0], sc[1] + tail)
         out.append(sc)
+    # deterministic companions: a message for several subscriptions of which some streams / responses are gone
+    for qos in (0, 1, 2):
+        for gone in ('first', 'last', 'middle', 'all', 'rsp'):
+            s = Sess(f'{prefix}-common-multigone-{qos}-{gone}')
+            s.connect()
+            subs = []
+            for j in range(3):
+                op, pid, sid = s.subscribe([(b'a', '2000')])
+                s.feed(m.suback(pid, [0]))
+                s.live_ops.pop(op, None)
+                subs.append((op, sid))
+            for j, (op, sid) in enumerate(subs):
+                if gone == 'rsp' and j == 0:
+                    s.add(f'DROP rsp{op}')
+                    continue
+                s.add(f'STREAM {op}')
+                if (gone, j) in (('first', 0), ('last', 2), ('middle', 1)) or gone == 'all':
+                    s.add(f'DROP st{op}')
+            ids = [sid for _, sid in subs]
+            s.feed(m.publish(b'a', b'to-all', qos, 11 if qos else None, 0, 0, [(11, x) for x in ids]))
+            s.feed(m.publish(b'a', b'reversed', qos, 12 if qos else None, 0, 0, [(11, x) for x in ids[::-1]]))
+            if qos == 2:
+                s.feed(m.ack('pubrel', 11))
+                s.feed(m.ack('pubrel', 12))
+            s.ping()
+            s.feed(m.pingresp())
+            if tail:
+                for l in tail:
+                    s.add(l)
+            out.append(s.script())
     return out
 
 
